@@ -84,10 +84,14 @@ structure LState where
   pending : Option Nat := none     -- sid of the stream the handler is trying to hand over
   acceptors : Nat := 0             -- `Accept` calls that are waiting
   streams : List Nat := []         -- registered sids
+  expecting : Option Nat := none   -- an `Expect` call is waiting for this sid (repaired code: the
+                                   -- entry of a call that has returned is never handed a stream)
   deriving DecidableEq, Repr
 
 inductive LOp
   | listen | closeL | accept | open (sid : Nat)
+  | expect (sid : Nat)             -- `Expect` is called for this sid
+  | cancelExpect                   -- its context ends: the call returns the context's error
   deriving DecidableEq, Repr
 
 /-- result of a step: the new state, the reply to an open request (`some true` = result, `some
@@ -97,14 +101,20 @@ structure LOut where
   reply : Option Bool := none
   conns : Nat := 0
   errs : Nat := 0
+  xconn : Bool := false   -- the waiting `Expect` call returns the connection
+  xerr : Bool := false    -- the waiting `Expect` call returns an error
   deriving DecidableEq, Repr
 
 def lstep (s : LState) : LOp → LOut
   | .listen => { st := { s with listening := true } }
   | .closeL =>
-    { st := { s with listening := false, pending := none, acceptors := 0,
+    { st := { s with listening := false, pending := none, acceptors := 0, expecting := none,
                      streams := match s.pending with | some sid => s.streams.erase sid | none => s.streams },
-      errs := s.acceptors }
+      errs := s.acceptors, xerr := s.expecting.isSome }
+  | .expect sid =>
+    if !s.listening then { st := s, xerr := true }   -- closed listener: the call returns at once
+    else { st := { s with expecting := some sid }, xerr := s.expecting.isSome }  -- a second call replaces the first
+  | .cancelExpect => { st := { s with expecting := none }, xerr := s.expecting.isSome }
   | .accept =>
     if !s.listening then { st := s, errs := 1 }
     else match s.pending with
@@ -113,6 +123,8 @@ def lstep (s : LState) : LOp → LOut
   | .open sid =>
     if !s.listening then { st := s, reply := some false }
     else if s.pending.isSome then { st := s }     -- the serve loop is still inside the previous hand-off
+    else if s.expecting = some sid then           -- `Expect` takes precedence over `Accept`
+      { st := { s with expecting := none, streams := sid :: s.streams }, reply := some true, xconn := true }
     else if s.acceptors > 0 then
       { st := { s with acceptors := s.acceptors - 1, streams := sid :: s.streams }, reply := some true, conns := 1 }
     else { st := { s with pending := some sid, streams := sid :: s.streams }, reply := some true }
